@@ -313,7 +313,7 @@ func VerifC03_Control() {
 }
 
 // VerifC03_Restamp: re-stamping session id / system bytes changes only those header bytes, in
-// chains of up to 3 steps, on constructed and on decoded messages; the body is untouched.
+// chains of up to 4 steps (thorough: 5), on constructed and on decoded messages; the body is untouched.
 func VerifC03_Restamp() {
 	vsymExpect("chained")
 	sid0, sys0 := vsymU16(), sym4()
@@ -337,7 +337,11 @@ func VerifC03_Restamp() {
 		msg, _ = d.ToDataMessage()
 	}
 	sid, sys := sid0, sys0
-	steps := 1 + vsymChoose(3)
+	maxSteps := 4
+	if vsymTier() == 1 {
+		maxSteps = 5
+	}
+	steps := 1 + vsymChoose(maxSteps)
 	cur := msg
 	for i := 0; i < steps; i++ {
 		switch vsymChoose(4) {
